@@ -2,7 +2,8 @@
    the row operations of display/buffers.py (VideoBuffer.put_char_attr / clear_rows / scroll_up / scroll_down),
    console.py (Console.write: control characters), devices/devicebase.py (SCRNFile.write for the master SCRN:
    file), devices/formatter.py (PRINT with ; and ,) and the statement glue (LOCATE, CLS, VIEW PRINT, WIDTH,
-   KEY ON/OFF, SCREEN n, SCREEN(r,c), error message printing) for the default (cga) adapter.
+   KEY ON/OFF, SCREEN n, SCREEN(r,c), error message printing) for the default (cga) adapter, with the fixes
+   D36a (LOCATE), D36b (scroll_down) and D36c (init_mode order).
    No proofs in this file.
 
    `hist` is a ghost log of the buffer primitives that were executed (most recent first); no control decision
@@ -203,10 +204,11 @@ Definition redraw_bar (s : st) : st :=
 
 (* ScrollArea.unset / init_mode, TextScreen.init_mode *)
 Definition unset_area (s : st) : st := set_area s 1 (height s - 1) false.
+(* [with fix D36c: the cursor goes home before the key bar is redrawn] *)
 Definition init_mode (s : st) : st :=
-  let s := redraw_bar s in
   let s := if bot s =? height s then set_area s 1 (height s) true else unset_area s in
-  set_pos s (top s) 1 true.
+  let s := set_pos s (top s) 1 true in
+  redraw_bar s.
 
 (* csrlin_, pos_ *)
 Definition csrlin (s : st) : Z :=
